@@ -29,6 +29,7 @@ from isla.language import Constant
 from grammar_graph import gg
 
 IMPORTS = "FixedLen"
+COUNT_CPU_S = 8   # CPU seconds per count() call; a cut run is inconclusive
 
 
 class Budget(Exception):
@@ -40,18 +41,19 @@ class CallTimeout(Exception):
 
 
 def with_alarm(seconds, f, *a):
-    """run f(*a) in the main thread under a wall-clock limit (count()'s search loops are unbounded)"""
+    """run f(*a) in the main thread under a CPU-time limit (user+sys of this process, ITIMER_PROF: independent of
+    the machine load).  count()'s search loops are unbounded; a run that is cut is INCONCLUSIVE, never a verdict."""
     import signal
 
     def onalarm(signum, frame):
         raise CallTimeout()
-    old = signal.signal(signal.SIGALRM, onalarm)
-    signal.setitimer(signal.ITIMER_REAL, seconds)
+    old = signal.signal(signal.SIGPROF, onalarm)
+    signal.setitimer(signal.ITIMER_PROF, seconds)
     try:
         return f(*a)
     finally:
-        signal.setitimer(signal.ITIMER_REAL, 0)
-        signal.signal(signal.SIGALRM, old)
+        signal.setitimer(signal.ITIMER_PROF, 0)
+        signal.signal(signal.SIGPROF, old)
 
 
 def _dbg(*a):
@@ -482,7 +484,8 @@ def run(run):
                  "else match r with Found t => meets_length g A n t | _ => true end", h_cflt))
 
     # ---------------- 3. count / find_expansion_without_needle ----------------
-    chist = {"false": 0, "true": 0, "notready": 0, "bind_num": 0, "bind_tree": 0, "raise": 0, "insert_tree_raise": 0,
+    chist = {"false": 0, "true": 0, "notready": 0, "bind_num": 0, "bind_tree": 0, "raise": 0, "insert_tree_raise": 0, "timeout": 0,
+             "skipped_after_timeout": 0,
              "few_found": 0, "few_none": 0, "few_budget": 0, "few_raise": 0}
     pk_few, pk_dec, pk_res = Packer(600), Packer(900), Packer(600)
     count_grammars = [(gi, g, cg) for gi, (g, cg) in enumerate(zip(grammars, cgs))
@@ -513,6 +516,7 @@ def run(run):
                            (cg, A, needle, kind, val))
         # -- count --
         ntrees = 10 if thorough else 6
+        g_timeouts, hung = 0, set()
         for ti in range(ntrees):
             t = rand_open_tree(rng, cg, "<start>", rng.randint(1, 4))
             if len(list(t.paths())) > 40:
@@ -521,18 +525,23 @@ def run(run):
             for needle in nts[: 3]:
                 more = any(P.reachable(graph, s.value, needle) for _, s in t.open_leaves())
                 for tgt in [None, -1, 0, 1, 2, 3, 4]:
-                    if chist.get("timeout", 0) >= 3:
-                        continue  # the implementation hangs: already reported, do not spend 30 s per call
+                    sub_seed = rng.randrange(1 << 30)   # drawn before any skip: the case stream stays the same
+                    if chist["timeout"] >= 6 or g_timeouts >= 2 or (ti, needle) in hung:
+                        chist["skipped_after_timeout"] += 1
+                        continue  # inconclusive: this search does not come back; do not spend the budget again
                     num = Constant("n", "<start>") if tgt is None else DerivationTree(str(tgt), ())
                     st = random.getstate()
-                    random.seed(rng.randrange(1 << 30))
+                    random.seed(sub_seed)
                     try:
-                        out = with_alarm(30, P.COUNT_PREDICATE.evaluate, graph, t, needle, num).result
+                        out = with_alarm(COUNT_CPU_S, P.COUNT_PREDICATE.evaluate, graph, t, needle, num).result
                     except CallTimeout:
-                        chist["timeout"] = chist.get("timeout", 0) + 1
-                        disagreements.append({"what": "count did not return within 30 s", "grammar": cg,
-                                              "tree": tree_json(t), "needle": needle, "target": tgt,
-                                              "spec_fail": False})
+                        # cut by the CPU budget: no result was observed -> nothing to compare, not a disagreement
+                        chist["timeout"] += 1
+                        g_timeouts += 1
+                        hung.add((ti, needle))
+                        if len(run.cov.setdefault("count_timeouts", [])) < 4:
+                            run.cov["count_timeouts"].append({"grammar": cg, "in_tree": str(t), "needle": needle,
+                                                              "target": tgt, "cpu_budget_s": COUNT_CPU_S})
                         continue
                     except Exception as e:  # noqa
                         out = e
@@ -650,7 +659,8 @@ def run(run):
         "GrammarGraph.reachable enters the count model as a function argument (table computed by the library; the "
         "harness reference recomputes it as the transitive closure of the grammar)",
         "insert_tree results are abstract inputs of finish_candidate (C13); node ids are ignored",
-        "termination is not claimed: runs exceeding the call budget are skipped (counted in cflt_outcomes.budget)"]
+        "termination is not claimed: runs of the implementation cut by a budget are inconclusive and skipped "
+        "(create_fixed_length_tree: call budget, cflt_outcomes.budget; count: CPU-time budget, count_outcomes.timeout)"]
 
 
 def replay(path):
